@@ -1,6 +1,6 @@
 //! C12 — edit distance equals the reference metric and operations() is a minimal script.
 use crate::core::*;
-use crate::gen::{chars_of, is_ws};
+use crate::gen::{self, chars_of, is_ws};
 use rand::seq::IndexedRandom;
 use rand::Rng as _;
 use serde::{Deserialize, Serialize};
@@ -72,8 +72,49 @@ pub fn ref_distance(a: &[&str], b: &[&str], swap: bool, sido: bool) -> usize {
     r.d(a.len(), b.len())
 }
 
+/// the same recurrence bottom-up over a full table (no recursion, no hashing): the reference of
+/// the `large` lane. Returns the last row: entry k is the distance between a and b[..k].
+pub fn ref_last_row(a: &[&str], b: &[&str], swap: bool, sido: bool) -> Vec<usize> {
+    let (n, m) = (a.len(), b.len());
+    let w = m + 1;
+    let mut t = vec![0u32; (n + 1) * w];
+    for j in 0..=m {
+        t[j] = j as u32;
+    }
+    for i in 1..=n {
+        t[i * w] = i as u32;
+        for j in 1..=m {
+            let (x, y) = (a[i - 1], b[j - 1]);
+            let mut best = t[(i - 1) * w + j] + 1;
+            best = best.min(t[i * w + j - 1] + 1);
+            if x == y {
+                best = best.min(t[(i - 1) * w + j - 1]);
+            } else if !sido || (!is_ws(x) && !is_ws(y)) {
+                best = best.min(t[(i - 1) * w + j - 1] + 1);
+            }
+            if swap
+                && i > 1
+                && j > 1
+                && x == b[j - 2]
+                && a[i - 2] == y
+                && (!sido || (!is_ws(x) && !is_ws(a[i - 2])))
+            {
+                best = best.min(t[(i - 2) * w + j - 2] + 1);
+            }
+            t[i * w + j] = best;
+        }
+    }
+    t[n * w..].iter().map(|v| *v as usize).collect()
+}
+
+/// pairs above this many matrix cells are judged with the bottom-up reference
+const BIG_CELLS: usize = 4096;
+
 fn gen_string(rng: &mut Rng, alpha: &[&str], long: bool) -> String {
-    let n = if long {
+    let n = if gen::scale() > 1 {
+        // `large` lane: 50 - 1500 symbols
+        rng.random_range(50..=gen::sc(6).max(50))
+    } else if long {
         rng.random_range(10..=40)
     } else {
         rng.random_range(0..=9)
@@ -86,9 +127,16 @@ impl Prop for C12 {
     const ID: &'static str = "C12";
 
     fn lanes(tier: Tier) -> Vec<Lane> {
-        vec![Lane::new("main", tier.pick(1_000_000, 12_000_000))
-            .cap(tier.pick(120, 900))
-            .floor(tier.pick(10_000, 200_000))]
+        vec![
+            Lane::new("main", tier.pick(1_000_000, 12_000_000))
+                .cap(tier.pick(120, 900))
+                .floor(tier.pick(10_000, 200_000)),
+            // pairs of 50 - 1500 symbols (up to 2.25 M matrix cells; b a mutation of a with up to
+            // |a|/12 edits in 60%), and one side of 65 000 - 70 000 symbols against 0 - 9
+            Lane::new("large", tier.pick(800, 24_000))
+                .cap(tier.pick(150, 1200))
+                .floor(tier.pick(60, 1_500)),
+        ]
     }
 
     fn rule() -> &'static str {
@@ -98,7 +146,10 @@ impl Prop for C12 {
          spaces_insert_delete_only. Every case runs distance (plain+normalised), prefix_distance, \
          distances and operations against an independent memoised top-down restricted-OSA reference. \
          distinct = hash of the case; non-trivial = reference distance >= 2 and (transpositions or \
-         the whitespace restriction change the value relative to plain Levenshtein)."
+         the whitespace restriction change the value relative to plain Levenshtein). Lane large: pairs of \
+         50-1500 symbols (b independent or a with up to |a|/12 edits), 3%: one side of 65 000-70 000 \
+         symbols against 0-9; pairs above 4096 matrix cells are judged with a bottom-up full-table \
+         version of the same recurrence (class bottom-up-reference; maxima longer_side, matrix_cells)."
     }
 
     fn assumptions() -> Vec<&'static str> {
@@ -126,13 +177,27 @@ impl Prop for C12 {
             alpha.retain(|c| *c != "b");
         }
         let long = rng.random_range(0..100) < 3;
+        if gen::scale() == 250 && rng.random_bool(0.3) {
+            // one side beyond 2^16 symbols against a short one (either order)
+            let n = rng.random_range(65_000..=70_000);
+            let x: String = (0..n).map(|_| *alpha.choose(rng).unwrap()).collect();
+            let y: String = (0..rng.random_range(0..=9)).map(|_| *alpha.choose(rng).unwrap()).collect();
+            let (a, b) = if rng.random_bool(0.5) { (x, y) } else { (y, x) };
+            return Case {
+                a,
+                b,
+                graphemes: rng.random_bool(0.5),
+                with_swap: rng.random_bool(0.6),
+                sido: rng.random_bool(0.5),
+            };
+        }
         let a = gen_string(rng, &alpha, long);
         let b = match rng.random_range(0..10) {
-            0..=4 => gen_string(rng, &alpha, long),
+            0..=3 => gen_string(rng, &alpha, long),
             _ => {
                 // mutate a: a few random edits, biased towards transpositions and whitespace edits
                 let mut cs: Vec<String> = chars_of(&a, false).iter().map(|s| s.to_string()).collect();
-                let k = rng.random_range(0..=4);
+                let k = rng.random_range(0..=4.max(cs.len() / 12));
                 for _ in 0..k {
                     let n = cs.len();
                     match rng.random_range(0..5) {
@@ -174,11 +239,25 @@ impl Prop for C12 {
     fn check(c: &Case, obs: &mut Obs) {
         let a = chars_of(&c.a, c.graphemes);
         let b = chars_of(&c.b, c.graphemes);
-        let r = ref_distance(&a, &b, c.with_swap, c.sido);
-        let lev = ref_distance(&a, &b, false, false);
+        let big = a.len() * b.len() > BIG_CELLS;
+        let last_row = if big { ref_last_row(&a, &b, c.with_swap, c.sido) } else { vec![] };
+        let rd = |x: &[&str], y: &[&str], swap: bool, sido: bool| -> usize {
+            if x.len() * y.len() > BIG_CELLS {
+                ref_last_row(x, y, swap, sido).last().copied().unwrap_or(0)
+            } else {
+                ref_distance(x, y, swap, sido)
+            }
+        };
+        let r = if big { last_row[b.len()] } else { ref_distance(&a, &b, c.with_swap, c.sido) };
+        let lev = rd(&a, &b, false, false);
         obs.nontrivial_if(r >= 2 && r != lev);
-        obs.tag_if(c.with_swap && r != ref_distance(&a, &b, false, c.sido), "swap-matters");
-        obs.tag_if(c.sido && r != ref_distance(&a, &b, c.with_swap, false), "whitespace-restriction-matters");
+        obs.tag_if(big, "bottom-up-reference");
+        obs.max("longer_side", a.len().max(b.len()) as u64);
+        obs.max("matrix_cells", ((a.len() + 1) * (b.len() + 1)) as u64);
+        if !big {
+            obs.tag_if(c.with_swap && r != ref_distance(&a, &b, false, c.sido), "swap-matters");
+            obs.tag_if(c.sido && r != ref_distance(&a, &b, c.with_swap, false), "whitespace-restriction-matters");
+        }
         obs.tag_if(a.is_empty() || b.is_empty(), "empty-side");
         obs.tag_if(a.len() >= 10, "long");
 
@@ -214,10 +293,14 @@ impl Prop for C12 {
         }
         // prefix distance
         let pd = edit::prefix_distance(&c.a, &c.b, c.graphemes, c.with_swap, c.sido, false);
-        let rp = (0..=b.len())
-            .map(|k| ref_distance(&a, &b[..k], c.with_swap, c.sido))
-            .min()
-            .unwrap_or(0);
+        let rp = if big {
+            last_row.iter().copied().min().unwrap_or(0)
+        } else {
+            (0..=b.len())
+                .map(|k| ref_distance(&a, &b[..k], c.with_swap, c.sido))
+                .min()
+                .unwrap_or(0)
+        };
         obs.check(pd == rp as f64, "prefix_distance/value", || {
             format!("prefix_distance={pd} reference={rp}")
         });
@@ -231,7 +314,7 @@ impl Prop for C12 {
             false,
         ) {
             Ok(v) => {
-                let rr = ref_distance(&b, &a, c.with_swap, c.sido);
+                let rr = rd(&b, &a, c.with_swap, c.sido);
                 obs.check(
                     v.len() == 2 && v[0] == r as f64 && v[1] == rr as f64,
                     "distances/value",
